@@ -127,6 +127,7 @@ func permutedStruct(e *Env, rot int, ptr bool) interface{} {
 }
 
 func runC15(c *Ctx) {
+	defer definedTypeProbe(c, "C15") // defined scalar types: real-code oracle only (defined_zoo.go)
 	r := c.R
 	r.Rule = "generated expressions (well-typed stream and a mostly ill-typed stream) x environments x {Eval on *struct, Eval on map, Compile without Env (struct and map values), Env(*struct), Env(struct), Env(map), AllowUndefinedVariables on/off, unnamed struct types with permuted fields}; all variants that succeed must return equal values; Optimize(false) so that only type information differs; non-trivial = at least two variants succeed"
 	n := 2500
@@ -134,6 +135,9 @@ func runC15(c *Ctx) {
 		n = 40000
 	}
 	cases := GenCases(c, n, 4, []Mode{{Env: "none"}}, nil)
+	mixed := c15MixedKindCases()
+	r.Count("mixed-kind-cases", len(mixed))
+	cases = append(mixed, cases...)
 	for _, cs := range cases {
 		type res struct {
 			name string
@@ -357,3 +361,48 @@ func (f visitFn) Enter(n *ast.Node) { f(*n) }
 func (f visitFn) Exit(n *ast.Node)  {}
 
 func init() { props["C15"] = runC15 }
+
+// c15MixedKindCases: every ordered pair of the numeric members of the zoo under comparison and arithmetic
+// operators, on environments whose values truncate or change sign when converted between the kinds
+// (uint8(255) vs int8(-1), uint(256) vs int8(0), …).  The typed path selects kind-directed instructions
+// (OpEqualInt, typed pushes); they must agree with the untyped path exactly where conversion matters
+// (seed c14_5: a widened integer-equality fast path compares at int64 instead of at the promoted kind).
+func c15MixedKindCases() []*Case {
+	fields := []string{"I", "I8", "U8", "I64", "U", "F", "F32"}
+	ops := []string{"==", "!=", "<", ">=", "+"}
+	type vals struct {
+		I, J   int
+		I8     int8
+		U8     uint8
+		I64    int64
+		U      uint
+		F      float64
+		F32    float32
+	}
+	grid := []vals{
+		{-1, 255, -1, 255, -1, 255, -1, -1},
+		{256, -256, 0, 0, 256, 256, 256, 256},
+		{200, 1, -56, 200, -56, 200, 200, -56},
+		{128, -128, -128, 128, 128, 128, -128, 128},
+	}
+	var out []*Case
+	for gi, g := range grid {
+		for _, a := range fields {
+			for _, b := range fields {
+				if a == b {
+					continue
+				}
+				for oi, op := range ops {
+					env := NewEnv(gi, func(n int) int { return (gi*5 + 1) % n })
+					env.I, env.J, env.I8, env.U8, env.I64, env.U, env.F, env.F32 = g.I, g.J, g.I8, g.U8, g.I64, g.U, g.F, g.F32
+					src := a + " " + op + " " + b
+					if (gi+oi)%3 == 2 {
+						src = "[" + src + ", any(Ints, {" + src + "})]"
+					}
+					out = append(out, &Case{Src: src, Mode: Mode{Env: "none"}, Env: env})
+				}
+			}
+		}
+	}
+	return out
+}
